@@ -81,7 +81,8 @@ def step (_ : Unit) (line : String) : Unit × String :=
          | some b =>
            let cfg : PCfg := { boundary := b, memLimit := if mem < 0 then 0 else mem.toNat, diskOk := disk == "1" }
            let (p, toks) := mpRun cfg {} chunks []
-           " ".intercalate toks.reverse ++ " F " ++ filesStr p.files)
+           -- the harness reads every finished file back through `file.data()` from offset 0
+           " ".intercalate toks.reverse ++ " F " ++ filesStr (p.files.map fun f => { f with data := readBackFrom cfg.memLimit f.data 0 }))
       | _, _, _ => "bad-op"
     | ["ct", h] =>
       match parseHex h with
@@ -101,7 +102,10 @@ def step (_ : Unit) (line : String) : Unit × String :=
                              lim := { contentLimit := climit, multipartLimit := mlimit, memLimit := mem, diskOk := disk == "1" } }
         let sizes := if o.sizes.isEmpty then "-" else ",".intercalate (o.sizes.map toString)
         let evs := if o.events.isEmpty then "-" else ",".intercalate (o.events.map evStr)
-        s!"{seenStr o.seen} get {pairsStr o.get} | sizes {sizes} raw {toHex o.raw} ev {evs}"
+        let rd := match flt, o.seen with
+          | 4, .handled _ _ => s!" rd {toHex o.rd}"
+          | _, _ => ""
+        s!"{seenStr o.seen} get {pairsStr o.get} | sizes {sizes} raw {toHex o.raw} ev {evs}{rd}"
       | _, _, _, _, _, _, _, _, _ => "bad-op"
     | ["hdrok", h] =>
       match parseHex h with
